@@ -18,7 +18,8 @@ EXPLANATION = (
     'fresh dict; R3 every per-run accumulator that grows inside the part loop (and exc_info) is reset on every path from the entry of run '
     'to the loop; R4 on the CFG x once-flag product no normal exit of run is reachable with the namespace populated and not cleared; '
     'R5 the module __dict__ is only copied into the namespace, never used as or written through; R6 RuntimeState.__init__ copies the entries '
-    'of the shared default dict and keeps no reference to it. What doctest code does to third-party global state is not decided.')
+    'of the shared default dict and keeps no reference to it. What doctest code does to third-party global state is not decided.'
+    ' R2/R3 see through one helper method of DocTest called before the part loop (what it resets / stores on every normal return). R8 WHO-MAY: only DocTest.__init__ binds the global_namespace attribute, to a fresh dict.')
 DECIDES = ['WHO-MAY default template', 'MUST-PASS fresh run state', 'reset PAIRING of accumulators', 'namespace cleared PAIRING (product with once-flags)', 'alias FLOW module dict', 'shared config copied']
 NOT_DECIDED = ['effects of doctest code on shared third-party state', 'sys.modules caching of the module under test']
 
